@@ -105,6 +105,7 @@ def bool_stream(rep, tier, seed, name="transforms-bool"):
                       "\nstream=%s case=%d\ninput: %s\nimplementation: %s\nmodel: (none: oracle-only stream)\n"
                       % (name, i, line, a), has_input)
     transforms.STATS = None
+    generic_simplify(rep, name, lines, impl, st)
     st["distinct_nontrivial"] = len(nontriv)
     st["histogram"] = hist
     st["sampled_executions"] = stats
@@ -116,6 +117,79 @@ def bool_stream(rep, tier, seed, name="transforms-bool"):
         for i in sorted(rng.sample(range(len(lines)), min(2, len(lines)))):
             rep.cov["samples"].append({"stream": name, "input": lines[i][:600], "implementation": (impl.get(i) or "")[:600],
                                        "model": "(none: oracle-only stream)"})
+
+
+def _canon_stmt(toks):
+    """the text the harness prints for a statement: a range store whose bounds are the same expression is an
+    array_store_stmt with lb = ub, printed as a one-cell (weak) store"""
+    if toks and toks[0] == "astorer":
+        def exp_end(p):            # E n (c v)*n k
+            return p + 2 + 2 * int(toks[p + 1]) + 1
+        p1 = 3; p2 = exp_end(p1); p3 = exp_end(p2)
+        if toks[p1:p2] == toks[p2:p3]:
+            return " ".join(["astore", toks[1], toks[2], "0"] + toks[p1:p2] + toks[p3:])
+    return " ".join(toks)
+
+
+def generic_simplify(rep, name, lines, impl, st):
+    """Correspondence for the generic theorems (Props/Properties_C17_generic.v): cfg::simplify never inspects a statement,
+    and Ana/SimplifyGen.v proves the model of simplify for every statement language, the model of Ana/Simplify.v being its
+    instance (simplify_is_instance).  For every q=simp case of this stream each statement is replaced by a distinct opaque
+    token (`assign 0 E 0 <n>`), the extracted model runs on the abstracted CFG, the tokens are replaced back, and the result
+    must be the CFG the implementation printed for the real (boolean / array) program: same blocks, same statement
+    sequences, same edge vectors."""
+    import os, re
+    idx = [i for i, l in enumerate(lines) if " q=simp" in l.split(" | ")[0] and impl.get(i, "").startswith("entry=")]
+    if not idx:
+        return
+    dexe, err = vlib.build_driver("transforms")
+    if err:
+        rep.violation(name + "-generic-driver", err, False)
+        return
+    tables, abs_lines = [], []
+    for i in idx:
+        secs = lines[i].split(" | ")
+        table, out = [], [" ".join(secs[0].split()[:2] + ["1"] + secs[0].split()[3:])]
+        for sec in secs[1:]:
+            t = sec.split()
+            if not t or t[0] in ("F", "L"):
+                continue
+            if t[0] == "B":
+                toks = []
+                for stx in transforms.split_stmts(t[2:]):
+                    toks.append("assign 0 E 0 %d" % (1000 + len(table)))
+                    table.append(_canon_stmt(stx))
+                out.append(("B %s %s" % (t[1], " ; ".join(toks))).strip())
+            else:
+                out.append(sec)
+        tables.append(table); abs_lines.append(" | ".join(out))
+    d = os.path.join(vlib.VERIF, "out", rep.prop)
+    cf = os.path.join(d, name + "-generic.cases")
+    open(cf, "w").write("\n".join(abs_lines) + "\n")
+    rc, out = vlib.sh([dexe, cf], timeout=600)
+    model = {}
+    for l in out.split("\n"):
+        if l.startswith("R "):
+            sp = l.split(" ", 2); model[int(sp[1])] = sp[2] if len(sp) > 2 else ""
+    bad = 0
+    for j, i in enumerate(idx):
+        m = model.get(j, "MISSING")
+        m = re.sub(r"assign 0 E 0 (\d+)", lambda mm: tables[j][int(mm.group(1)) - 1000] if 0 <= int(mm.group(1)) - 1000 < len(tables[j]) else mm.group(0), m)
+        if m != impl[i]:
+            bad += 1
+            if bad <= 2:
+                w = None
+                try:
+                    w = transforms.oracle(lines[i], impl[i], None)
+                except Exception:
+                    pass
+                rep.violation("%s-generic-simp-%d" % (name, i),
+                              (("FAILING INPUT (property oracle on the implementation's answer): " + w + "\n") if w else
+                               "correspondence broken: cfg::simplify on a program with boolean / array statements no longer agrees with the "
+                               "generic Coq model (Props/Properties_C17_generic.v no longer applies to this code); the oracle found no "
+                               "concrete counterexample on this input\n") +
+                              "stream=%s case=%d\ninput: %s\nimplementation: %s\nmodel: %s\n" % (name, i, lines[i], impl[i], m), bool(w))
+    st["generic_simplify_model"] = {"cases": len(idx), "mismatches": bad}
 
 
 def replay(path):
